@@ -991,7 +991,8 @@ class Transaction(object):
                 inputs[n].keys = script.keys
                 inputs[n].signatures = script.signatures
                 if not script.script_types:
-                    inputs[n].script_type = 'unknown'
+                    if not coinbase:
+                        inputs[n].script_type = 'unknown'
                 elif script.script_types[0][:13] == 'p2sh_multisig' or script.script_types[0] =='signature_multisig':
                     inputs[n].script_type = 'p2sh_multisig'
                     inputs[n].redeemscript = inputs[n].witnesses[-1]
